@@ -106,7 +106,7 @@ SHAPES = [
 ]  # fmt: skip
 POSITIONS = [
     "function", "method", "class", "nested_class", "parameter", "ctor_parameter", "class_attr", "inst_attr", "property", "doc_result_name",
-    "enum", "enum_member", "type_parameter", "class_type_parameter", "imported_class", "module_name", "package_name", "superclass",
+    "enum", "enum_member", "type_parameter", "class_type_parameter", "ctor_type_parameter", "imported_class", "module_name", "package_name", "superclass",
 ]  # fmt: skip
 COLLIDING = [("a_b", "aB"), ("my_name", "myName")]
 
